@@ -82,7 +82,7 @@ CLAIMED['C01'] = ('model_checking',
 TECH_REF = 'TLA+ reference machine + rule layer executed and checked by TLC on generated programs; conformance by replaying every program into the real engine'
 CLAIMED['C02'] = ('model_checking',
     'Seeded programs of the NF-MACRO macro language (6000 quick / 60000 thorough: \\def/\\gdef with 0-9 undelimited, delimited and '
-    'bracketed parameters, \\newcommand with optional argument, nested calls in bodies and arguments, inner definitions with ##, \\let, '
+    'bracketed parameters, blanks in front of undelimited arguments, \\newcommand with optional argument, nested calls in bodies and arguments, inner definitions with ##, \\let, '
     '\\csname, \\expandafter, nested groups) are executed by TLC on the reference machine Expand.tla.  TLC checks at EVERY macro call '
     'that the code-shaped matcher (MatchCode: Definition.invoke parameter by parameter, single-token delimiters without brace '
     'awareness) agrees with TeX\'s rule (MatchRule: shortest prefix at brace depth 0, outer braces stripped) -- SubstExact -- plus '
@@ -106,8 +106,9 @@ CLAIMED['C03'] = ('model_checking',
 CLAIMED['C05'] = ('model_checking',
     'Args.tla: TLC enumerates every signature of up to MaxArgs specifications (star, [], (), <>, mandatory) x every conforming call built '
     'from a fragment catalogue (optional present/absent, nested same-kind brackets, brace groups hiding a closer or an opener, blanks, '
-    'single-token arguments, control sequences) x 8 followers and checks the reader machine (readCharacter / readGrouping with nesting '
-    'and brace counters / readToken) against what was written (BindsDeclared, ConsumesExactly, NeverStuck); every behaviour is replayed on '
+    'single-token arguments, control sequences) x 11 followers and checks the reader machine (readCharacter / readGrouping with nesting '
+    'and brace counters / readToken, category codes of url-typed arguments set and put back) against what was written (BindsDeclared, '
+    'ConsumesExactly, CatcodesRestored, NeverStuck); every behaviour is replayed (plain and with the bracketed arguments typed url) on '
     'a real Command subclass with that signature comparing the bound token lists, the text left after the invocation and the balance of the '
     'parameter-scanning switch.  A typed-argument table (str, int, float, list with two delimiters, dict, Tok, nox, Dimen, Number) is run '
     'through the real casts.  Numbers.tla: TLC enumerates the bounded numeral grammar (7 sign runs x 16 integer forms in four radices, '
